@@ -114,7 +114,7 @@ PROPS = {
         "level": "proof",
         "technique": "Lean 4 proof (totality of every model function by kernel-checked recursion; explicit panic values proved unreachable) + outcome-class correspondence with recover and watchdog on structured mutations and short junk strings",
         "claim": "Kernel-checked: the parser model always returns (error or tree), never stores a nil value, groups are non-empty; the KDF skeletons return a key for EVERY password length and hash function; every base64 alphabet index is < 64; the lexer's terminal token is its last. "
-                 "Go side: every Check/Params/Key call in the suites runs under recover + 20 s watchdog; the outcome class (ok / typed error / panic / timeout) must equal the model's, on every edit-distance-1 mutation of valid hashes of all ten schemes and all short strings over {$ , = _ a 0}.",
+                 "Go side: every Check/Params/Key call in the suites runs under recover + 90 s watchdog; the outcome class (ok / typed error / panic / timeout) must equal the model's, on every edit-distance-1 mutation of valid hashes of all ten schemes and all short strings over {$ , = _ a 0}.",
         "note": "Partial: panics inside reflect/strconv/stdlib crypto for inputs the model considers fine are only sampled; Go-side termination is observed by watchdog, proved only for the model; no coverage-guided fuzzing in this revision.",
         "rule": "kdf + classify + parse + dispatch + b64 + stream + codec: see the C03, C06, C11, C07, C16, C17, C10 rules; every call wrapped in recover and a watchdog; any operation on which the implementation panics or hangs is a failing input; non-trivial/distinct as in those suites",
         "trusted": COMMON_TRUST,
